@@ -195,17 +195,20 @@ impl TableBootstrapInner {
             let mut receivers = FuturesUnordered::new();
             let (new_receivers_tx, mut new_receivers_rx) = mpsc::unbounded_channel();
 
-            let contact_count = router_addresses.len() + self.starting_nodes.len();
+            // A contact may be given both as a router and as a node; contact it only once (two
+            // exchanges with the same address and transaction id cannot be told apart).
+            let contacts: HashSet<SocketAddr> = router_addresses
+                .union(&self.starting_nodes)
+                .copied()
+                .collect();
+            let contact_count = contacts.len();
             let stop_at = std::cmp::min(contact_count, MAX_INITIAL_RESPONSES);
             let mut responses_received = 0;
 
             let mut send_finished = false;
             let mut new_receivers_closed = false;
-            let mut send_to_initial_nodes = pin!(self.send_to_initial_nodes(
-                find_node_msg,
-                &router_addresses,
-                new_receivers_tx
-            ));
+            let mut send_to_initial_nodes =
+                pin!(self.send_to_initial_nodes(find_node_msg, &contacts, new_receivers_tx));
 
             loop {
                 if send_finished && new_receivers_closed && receivers.is_empty() {
@@ -332,13 +335,13 @@ impl TableBootstrapInner {
     async fn send_to_initial_nodes(
         &self,
         message: Message,
-        router_addresses: &HashSet<SocketAddr>,
+        contacts: &HashSet<SocketAddr>,
         new_receivers_tx: mpsc::UnboundedSender<Responded>,
     ) {
         let mut last_send_error = None;
         let mut count = 0;
 
-        for addr in router_addresses.iter().chain(self.starting_nodes.iter()) {
+        for addr in contacts {
             // Throttle sending if there is too many initial contacts
             if count > PINGS_PER_BUCKET {
                 time::sleep(NODE_TIMEOUT.max(Self::nat_friendly_send_duration())).await;
